@@ -273,6 +273,38 @@ def getDependentProducts (db : Db) (fuel : Nat) (top : Prod) (topological checkC
   | none => .outOfFuel
   | some (out, _) => finishListing db fuel top topological checkCycles out
 
+/-- `getDependentProducts` by an `Eups` whose setup type holds `exact` (`Eups(exact_version=True)`, `-e`), on tables of
+the form `if (type == exact) { … } else { … }` (expandtable's output): the first walk follows the exact branches (`dbE`:
+every declaration with the lines of its exact branch), the second walk of the topological / checkCycles modes is made
+with `followExact=False` — `Table.dependencies` drops `exact` from a *copy* of the setup type — and follows the else
+branches (`db`), with the versions of the first walk required.  The object's own setup type is left as it was, so the
+next listing by the same object follows the exact branches again.  (VRO without `type:exact`: the stock VRO appends
+`exact` to the setup type at every resolution.) -/
+def getDependentProductsExact (dbE db : Db) (fuel : Nat) (top : Prod) (topological checkCycles : Bool) : Outcome :=
+  if dbE.tableMissing top then .ok [] else
+  match listing dbE fuel [] top with
+  | none => .outOfFuel
+  | some (out, _) => finishListing db fuel top topological checkCycles out
+
+/-- The default (implicit) product switched on (`hooks.config.Eups.defaultProduct`, stock name `implicitProducts`):
+`Table._read` appends `setupOptional(<default product>)` to every table it reads — the default product's own table
+included — unless `addDefaultProduct` is `False`, and `Table.dependencies` passes `False` down once it is on the default
+product's own table: the products opened *below* the default product get no implicit line.  Modelled as a database
+transformation, exact on the class the harness generates (the products below the default product are reached through it
+only, so they are always opened without the line): every declaration gets the line at the end of its table except the
+products listed from the default product.  (The second pass replaces the default product's edges by its whole closure
+and drops `k → default` for `k` in that closure — the same layers on this class.) -/
+def Db.withImplicit (db : Db) (dflt : Str) : Db :=
+  match db.find dflt none with
+  | none => db                       -- not declared (no current version): the optional line resolves nowhere … not generated
+  | some ip =>
+    let below : List Str := match listing db db.fuel [] ip with
+      | some (out, _) => out.map (·.prod.name)
+      | none => []
+    let line : Dep := { unsetup := false, optional := true, name := dflt, ver := none, noRec := false }
+    { db with decls := db.decls.map fun d =>
+        if below.contains d.name && d.name != dflt then d else { d with deps := d.deps ++ [line] } }
+
 /-- `setup=True` ("get the version that's actually setup"): every listed product is replaced by the version of it
 that is set up (`findSetupProduct`: the declared version the environment names), and dropped when none is
 (`shouldRaise=False`: a message for a required one) -/
@@ -356,6 +388,19 @@ def usesInfo (db : Db) (fuel : Nat) : UsesOutcome :=
     | [], sb => .ok (sb.map fun p => (p.1, minPerUser p.2))
     | d :: ds, sb =>
       match getDependentProducts db fuel ⟨d.name, some d.ver, true⟩ true false with
+      | .outOfFuel => .outOfFuel
+      | .cycle => .cycle
+      | .ok l =>
+        go ds (l.foldl (fun sb e => sbAdd sb (e.prod.name, e.prod.ver)
+                 ⟨d.name, d.ver, e.prod.ver, e.optional, e.depth.getD 0⟩) sb)
+  go db.decls []
+
+/-- `Eups.uses()` by an object in exact mode: every product's topological listing through its exact branch -/
+def usesInfoExact (dbE db : Db) (fuel : Nat) : UsesOutcome :=
+  let rec go : List Decl → SetupBy → UsesOutcome
+    | [], sb => .ok (sb.map fun p => (p.1, minPerUser p.2))
+    | d :: ds, sb =>
+      match getDependentProductsExact dbE db fuel ⟨d.name, some d.ver, true⟩ true false with
       | .outOfFuel => .outOfFuel
       | .cycle => .cycle
       | .ok l =>
